@@ -32,15 +32,20 @@ def parseInst (spec hex : String) : Option OpInst :=
   | _, _ => none
 
 def showOutcome : Outcome → String
+  | .fail (.other "blocked forever in rlock.Lock()") => "hang"
   | .ok => "ok"
   | .kafka c => s!"kafka:{c}"
   | .fail (.other "io.ErrNoProgress") => "fail:noprogress"
   | .fail _ => "fail"
 
-/-- run one operation of the model on a connection -/
+/-- run one operation of the model on a connection with its read lock (lock discipline = regenerated facts);
+`inflight`: the request was written before an earlier caller's failure closed the Conn -/
+def runInstL (inflight : Bool) (topic : Bytes) (i : OpInst) (cl : Conn × Bool) : Option (Outcome × (Conn × Bool)) :=
+  if i.name == "fetch" then some (connFetchL Gen.ConnLegacy.lockFacts fetchFixed i.ver i.offset idealBody cl)
+  else (specOf i.name).map fun o => connDoL Gen.ConnLegacy.lockFacts inflight o i.ver topic cl
+
 def runInst (topic : Bytes) (i : OpInst) (c : Conn) : Option (Outcome × Conn) :=
-  if i.name == "fetch" then some (connFetch fetchFixed i.ver i.offset idealBody c)
-  else (specOf i.name).map fun o => connDo o i.ver topic c
+  (runInstL false topic i (c, false)).map fun r => (r.1, r.2.1)
 
 /-- REFERENCE-side judgement of one result on a fully delivered frame (Spec/ConnFrames.lean only, no model):
 `none` = the body is not an encoding of the Kafka layout (a harness error, not a property failure);
